@@ -176,3 +176,16 @@ NOT_APPLICABLE = {}
 for _k, _m in {"C02": "mon_C02", "C09": "mon_C09", "C12": "mon_C12", "C03": "mon_C03", "C04": "mon_C04", "C06": "mon_C06", "C08": "mon_C08", "C11": "mon_C11",
                "C14": "mon_C14", "C15": "mon_C15", "C16": "mon_C16", "C17": "mon_C17", "C20": "mon_C20"}.items():
     PROPS[_k]["monitor"] = _m
+
+# additions to the claim texts: whole-transaction theorems (coq/Proofs/TxBalances.v) and monitors
+_EXTRA = {
+ "C02": "Whole-transaction theorem (C02_withdrawal_transaction_moves_exactly_these_balances): a withdrawal pays the sender exactly the floored pro-rata refunds out of the pool manager, destroys exactly the LP sent and changes no other bank balance. Monitor mon_C02 (x*y/S^2 of constant-product pools never decreases through a deposit / withdrawal; LP supplies move only then).",
+ "C04": "Whole-transaction theorem (C04_swap_transaction_moves_exactly_these_balances): for a direct swap the new value of EVERY bank balance is given - sender pays the offer to the pool manager, out of it go exactly return (receiver), protocol fee (collector), burn fee (destroyed); nobody else's balance changes in any denom; the route form is C12_route_quote_is_what_the_route_transaction_pays. Monitor mon_C04 (the pool manager's balance moves exactly as the reserves through swaps and routes).",
+ "C08": "Whole-transaction theorem (C08_withdrawal_transaction_moves_exactly_these_balances): a regular withdrawal moves exactly the recorded LP amount from the farm manager to the owner and no other balance. Monitor mon_C08 (a transaction only creates or changes positions of its sender).",
+ "C09": "Whole-transaction theorem (C09_emergency_withdrawal_transaction_moves_exactly_these_balances): every bank balance after an emergency withdrawal. Monitor mon_C09 (the owner receives between 10% and 100%; a regular withdrawal returns all).",
+ "C12": "Transaction-level forms: the Simulation on the state before a swap transaction gives exactly the receiver's gain, the collector's gain and what leaves the pool manager (C12_quote_is_what_the_swap_transaction_pays); SimulateSwapOperations gives exactly what the route transaction sends the receiver (C12_route_quote_is_what_the_route_transaction_pays). Monitor mon_C12 on the implementation: a swap / route executed right after its quote pays the receiver the quoted amount, and a direct swap REPORTS (event attributes) exactly the quoted return, spread and fee amounts.",
+ "C16": "Whole-transaction theorem (C16_creation_transaction_moves_exactly_these_balances): the attached funds go to the pool manager, out of which exactly the creation fee goes to the collector and exactly the token-factory fee is destroyed; no other balance changes.",
+ "C06": "Over all histories: C06_payouts_never_exceed_funding_in_any_reachable_world (recorded payouts of every farm of every reachable world stay within its funding; with C05 no claim can draw on another farm's or a position's funds). Monitor mon_C06 on the implementation.",
+}
+for _k, _t in _EXTRA.items():
+    PROPS[_k]["level_text"] = (PROPS[_k]["level_text"] or "") + " " + _t
